@@ -279,14 +279,21 @@ def runs (c : Cfg) : St → List Label → Option St
 /-- Reachable from an initial state by any list of labels. -/
 def Reach (c : Cfg) (s : St) : Prop := ∃ t0 ls, runs c (St.init t0) ls = some s
 
+/-- The phases of `stop_daemon` executed in order: a phase runs when the task is not done at its
+    check (`done k`) and its needed option is set; then its wait moves the clock. -/
+def runPhases (c : Cfg) (done : Nat → Bool) : List KPhase → Nat → Tick → List (Tick × Reason)
+  | [], _, _ => []
+  | p :: ps, k, t =>
+    if !done k && (!p.needsBackoff || c.backoff.isSome) && (!p.needsTimeout || c.timeout.isSome) then
+      (t, p.set) :: runPhases c done ps (k + 1)
+        (t + match p.wait with | .backoff => c.b0 | .timeout => c.t0 | .nothing => 0)
+    else runPhases c done ps (k + 1) t
+
 /-- What the linear `stop_daemon` does when started at `start`, as a function of what it observes of
-    the task (`done k` = `daemon.task.done()` at its k-th check): the reasons it sets, with times. -/
+    the task (`done k` = `daemon.task.done()` at the check of its k-th phase): the reasons it sets,
+    with times (the instant-exit wait takes no time, see the assumptions). -/
 def killerPlan (c : Cfg) (r : Reason) (start : Tick) (done : Nat → Bool) : List (Tick × Reason) :=
-  let p0 := [(start, r)]
-  let (p1, t1) := if !done 0 && c.backoff.isSome then ([(start, Reason.signalled)], start + c.b0) else ([], start)
-  let (p2, t2) := if !done 1 && c.timeout.isSome then ([(t1, Reason.cancelled)], t1 + c.t0) else ([], t1)
-  let p3 := if !done 2 then [(t2, Reason.abandoned)] else []
-  p0 ++ p1 ++ p2 ++ p3
+  (start, r) :: runPhases c done killerPhases 0 start
 
 /-! ### Micro-steps of `_timer`'s control flow -/
 
